@@ -73,6 +73,8 @@ def jobs(tier, seed):
     out.append({'family': 'too-many-cards', 'kind': 'sizes'})
     out.append({'family': 'unknown-cards', 'kind': 'unknown'})
     out.append({'family': 'repeated-cards', 'kind': 'repeated'})
+    for t in ALL_TYPES:
+        out.append({'family': 'hands-are-values', 'kind': 'mutable', 'type': t, 'all': tier == 'thorough'})
     # pairwise comparison of class representatives with the real operators
     for t in ALL_TYPES:
         nrows = 64 if tier == 'thorough' else 8
@@ -285,6 +287,45 @@ def run_repeated(job, J):
     return None
 
 
+def run_mutable(job, J):
+    """A hand is a value: built from a container the caller goes on using (list, deque, a list later emptied / refilled /
+    reordered), its cards, entry, comparisons and hash stay what they were when it was built. Every class representative of the
+    type, in turn, with the next representative's cards written over the caller's container."""
+    from collections import deque
+    t = job['type']
+    T = J.cls[t]
+    items = class_reps(t)
+    step = 1 if job.get('all') else max(1, len(items) // 400)
+    idxs = list(range(0, len(items), step))
+    for a, b in zip(idxs, idxs[1:] + idxs[:1]):
+        ca, cb = items[a][2], items[b][2]
+        ref = T(tuple(J.objs[c] for c in ca))
+        for mk in (list, deque):
+            buf = mk(J.objs[c] for c in ca)
+            h = T(buf)
+            for how in ('overwrite', 'reverse', 'clear'):
+                if how == 'overwrite':
+                    for k in range(len(buf)):
+                        buf[k] = J.objs[cb[k % len(cb)]]
+                elif how == 'reverse':
+                    buf.reverse()
+                else:
+                    buf.clear()
+                J.evals += 1
+                J.c['hands_checked_after_callers_container_changed'] += 1
+                try:
+                    ok = (h == ref and not h < ref and not h > ref and hash(h) == hash(ref) and h.entry.index == ref.entry.index
+                          and [repr(c) for c in h.cards] == list(ca))
+                    why = f'==:{h == ref} entry {h.entry.index} vs {ref.entry.index} cards {list(map(repr, h.cards))}'
+                except Exception as exc:
+                    ok, why = False, f'{type(exc).__name__}: {exc}'
+                if not ok:
+                    J.v('hand-follows-callers-container', t, ca, f'built from a {mk.__name__}; after the caller\'s {how} of that {mk.__name__} '
+                        f'(next cards {"".join(cb)}) the hand is no longer what was built: {why}', mk.__name__)
+                    break
+    return {'type': t, 'cards': ''.join(items[0][2]), 'container': 'list, then overwritten'}
+
+
 def class_reps(t):
     """Canonical representatives of every reference class of a type, weakest first."""
     reps = {}
@@ -347,7 +388,7 @@ def run_pairs(job, J):
 
 
 RUN = {'five': run_five, 'badugi': run_badugi, 'kuhn': run_kuhn, 'sizes': run_sizes, 'unknown': run_unknown,
-       'repeated': run_repeated, 'pairs': run_pairs}
+       'repeated': run_repeated, 'pairs': run_pairs, 'mutable': run_mutable}
 
 
 def run_job(job):
